@@ -94,8 +94,9 @@ Definition judge (ack maxrt : Z) (ts : list track) (e : oev) : N * list track :=
                                else t) ts
     | KTick => map (fun t => {| t_id := t_id t; t_copies := t_copies t; t_elapsed := t_elapsed t; t_stopped := t_stopped t;
                                 t_ticked := true; t_acked := t_acked t; t_dl := t_dl t; t_resp := t_resp t; t_done := t_done t;
-                                (* all 1 + MAX_RETRANSMIT copies went out before this tick and nothing acknowledged them: exhausted *)
-                                t_dead := t_dead t || ((1 + maxrt <=? t_copies t) && negb (t_acked t)) |}) ts
+                                (* all 1 + MAX_RETRANSMIT copies went out before this tick and the request is still pending (nothing
+                                   acknowledged, reset or cancelled it): exhausted *)
+                                t_dead := t_dead t || ((1 + maxrt <=? t_copies t) && negb (t_acked t) && negb (t_stopped t)) |}) ts
     | _ => ts
     end in
   (* 2. what must come back at this event *)
